@@ -285,7 +285,7 @@ fn record(opsv: &[Op], st: &mut Stats) {
 }
 
 pub fn run(ctx: &mut Ctx) -> Result<(), Violation> {
-    ctx.rule = "cases = operation histories over one BDDEnv<usize> (vocabulary: const var not and or implies eq xor nor nand ite exists all exists_impl aln amn exn count_leq/lt/geq/gt/eq fp model retain clean infer; operands are indices of ALL earlier results, ids 0..6) decoded from a proptest byte tape, \
+    ctx.rule = "cases = operation histories over one BDDEnv<usize> (vocabulary: const var not and or implies eq xor nor nand ite exists all exists-of-one-variable aln amn exn count_leq/lt/geq/gt/eq fp model retain clean infer; operands are indices of ALL earlier results, ids 0..6) decoded from a proptest byte tape, \
                 plus histories of formula evaluations sharing one BDDEnv<NamedSymbol> under a common ordering. After every step: (a) result table == table model of the step; (b) result `==` the result of the same operation on operands re-interned in a brand-new environment; \
                 (c) every earlier handle keeps its structure and table; (d) the unique table contains both leaves, maps each structure to itself, and every sub-diagram reachable from any handle is that very allocation (Rc::ptr_eq); (e) DOT export declares exactly the structurally distinct tests and references only declared ids. \
                 Non-trivial = history of >= 10 operations in which a handle older than 5 steps is used again; distinct by operation list."
@@ -325,6 +325,10 @@ pub fn run(ctx: &mut Ctx) -> Result<(), Violation> {
         ctx.stage("random-long-histories", false, r)?;
     }
 
+    if ctx.tier == Tier::Thorough {
+        let r = fuzz_stage(ctx, "history", 300_000, 600, &[vec![0u8; 16], (0..=255u8).collect()], replay);
+        ctx.stage("libfuzzer-history", false, r)?;
+    }
     crate::props::c13b::run_shared_formulas(ctx)?;
     Ok(())
 }
